@@ -231,6 +231,12 @@ class MiscMonitors:
             if not self.c16_one(m, L, r2.doc, dict(det, other=L, other_kind=kind), "other"):
                 return
 
+    def on_merge_raised(self, s1, s2, e):
+        if "C16" in self.on and self.is_core():
+            self.violation("C16", "merge.raised", {
+                "shape": "%s|%s:%s" % (core.step_kind(s1), core.step_kind(s2), type(e).__name__),
+                "s1": self.describe_step(s1), "s2": self.describe_step(s2), "error": repr(e)})
+
     def c16_one(self, m, doc, expect, det, which):
         sim = self.sim
         if "other" in det and not isinstance(det["other"], dict):
